@@ -16,9 +16,17 @@
      an unguarded cycle would admit call stacks of every length (general theorem);
    - the value the reference BER decoder returns is never larger than the number
      of octets it consumed (every type of the algebra, every input);
-   - for OER and UPER that is false without a count guard: SEQUENCE OF NULL. *)
+   - for OER and UPER that is false without a count guard: SEQUENCE OF NULL;
+   - WHEN the UPER string / list decoders allocate (coq/Rt/HeapBound.v: [get_sized] of Rt/Uper.v
+     instrumented with the check's allocation meter, following OCTET_STRING_decode_uper /
+     BIT_STRING_decode_uper / SET_OF_decode_uper + asn_set_add): allocation per received
+     fragment (<= 64K units) keeps the peak live heap below factor * input + a constant that
+     mentions NEITHER bound of the SIZE constraint, for every SIZE constraint and every
+     input (complete, truncated, lying about its length); sizing the buffer (reserving the
+     array) from the upper bound of a SIZE RANGE changes no decoded value and is unbounded
+     over the family SIZE(lo..h), h >= 64K, on every input, the empty one included. *)
 From Coq Require Import ZArith List Bool.
-From A1 Require Import Base.Bytes Rt.Types Rt.Der Rt.Oer Rt.Uper Rt.Depth Rt.DepthProofs.
+From A1 Require Import Base.Bytes Rt.Types Rt.Der Rt.Oer Rt.Uper Rt.Depth Rt.DepthProofs Rt.HeapBound Rt.HeapBoundProofs.
 Import ListNotations.
 Local Open Scope Z_scope.
 
@@ -98,3 +106,95 @@ Theorem C15_heap_linear_uper_refuted :
   exists t bs v n, uper_decode false t bs = Some (v, n) /\ n = 2 /\ vsize v = 16384.
 Proof. exact heap_linear_uper_refuted. Qed.
 Print Assumptions C15_heap_linear_uper_refuted.
+
+(* ---------------- round C15x: allocation per fragment (Rt/HeapBound.v) ---------------- *)
+
+(* the instrumented decoders ARE the reference decoder of Rt/Uper.v, under either policy *)
+Theorem C15_string_alloc_erasure : forall (A : Type) (item : list bool -> option (A * list bool)) (mem : Z -> Z)
+  (pol : policy) (s : scon) (bs : list bool),
+  fst (str_dec item item mem true pol s bs) = get_sized item s bs.
+Proof. exact @str_dec_erase. Qed.
+Print Assumptions C15_string_alloc_erasure.
+
+Theorem C15_list_alloc_erasure : forall (A : Type) (item : list bool -> option (A * list bool)) (esz : Z)
+  (nobit : list bool -> list bool -> bool) (pol : policy) (s : scon) (bs : list bool),
+  fst (lst_dec item esz false nobit true pol s bs) = get_sized item s bs.
+Proof. exact @lst_dec_erase. Qed.
+Print Assumptions C15_list_alloc_erasure.
+
+(* strings: units of at least w bits in the encoding and at most U bytes in memory *)
+Theorem C15_string_heap_per_fragment_partial : forall (A : Type) (item item_x : list bool -> option (A * list bool))
+  (mem : Z -> Z) (w U : Z),
+  1 <= w -> 0 <= U ->
+  (forall bs a r, item bs = Some (a, r) -> zlen r + w <= zlen bs) ->
+  (forall bs a r, item_x bs = Some (a, r) -> zlen r + w <= zlen bs) ->
+  (forall n, 0 <= n -> 0 <= mem n <= U * n) ->
+  forall (chk : bool) (s : scon) (bs : list bool), scon_ok s ->
+  w * m_peak (snd (str_dec item item_x mem chk PerFragment s bs)) <= 2 * U * zlen bs + w * (3 * 65536 * U + 2).
+Proof. exact @str_heap_frag_bound. Qed.
+Print Assumptions C15_string_heap_per_fragment_partial.
+
+(* OCTET STRING of Rt/Uper.v: peak <= 2 * input octets + 196610 *)
+Theorem C15_octet_string_heap_partial : forall (chk : bool) (s : scon) (bs : list bool), scon_ok s ->
+  8 * m_peak (snd (str_dec get_octet get_octet (mem_of 1) chk PerFragment s bs)) <= 2 * zlen bs + 8 * 196610.
+Proof. exact octet_string_heap_bound. Qed.
+Print Assumptions C15_octet_string_heap_partial.
+
+(* "allocate ub + 1 up front": on EVERY input, for every range with ub >= 64K *)
+Theorem C15_string_prealloc_every_input : forall (A : Type) (item item_x : list bool -> option (A * list bool)) (mem : Z -> Z)
+  (chk : bool) (lo h : Z) (bs : list bool), 65536 <= h ->
+  mem h + 1 <= m_peak (snd (str_dec item item_x mem chk PreallocUb (SCon lo (Some h) false) bs)) /\
+  mem h + 1 <= m_maxreq (snd (str_dec item item_x mem chk PreallocUb (SCon lo (Some h) false) bs)).
+Proof. exact @str_prealloc_peak. Qed.
+Print Assumptions C15_string_prealloc_every_input.
+
+Theorem C15_string_heap_prealloc_refuted : forall c K : Z,
+  exists s bs, scon_ok s /\
+    c * zlen bs + K < m_peak (snd (str_dec get_octet get_octet (mem_of 1) false PreallocUb s bs)).
+Proof. exact str_heap_prealloc_refuted. Qed.
+Print Assumptions C15_string_heap_prealloc_refuted.
+
+(* lists: elements of esz bytes, the `no bit consumed && nelems > 200` guard in place; the element
+   decoder may consume nothing at all *)
+Theorem C15_list_heap_partial : forall (A : Type) (item : list bool -> option (A * list bool)) (esz : Z),
+  0 <= esz ->
+  (forall bs a r, item bs = Some (a, r) -> zlen r <= zlen bs) ->
+  forall nobit : list bool -> list bool -> bool,
+  (forall bs a r, item bs = Some (a, r) -> nobit bs r = (length r =? length bs)%nat) ->
+  forall (chk : bool) (s : scon) (bs : list bool),
+  let ml := snd (lst_dec item esz true nobit chk PerFragment s bs) in
+  l_count (snd ml) <= zlen bs + 201 /\ m_peak (fst ml) <= (esz + 24) * (zlen bs + 201) + 32.
+Proof. exact @lst_heap_bound. Qed.
+Print Assumptions C15_list_heap_partial.
+
+Theorem C15_list_prealloc_refuted : forall c K : Z,
+  exists s bs, c * zlen bs + K <
+    m_peak (fst (snd (lst_dec (fun bs0 : list bool => match bs0 with b :: r => Some (b, r) | [] => None end)
+                             4 true nobit_len false PreallocUb s bs))).
+Proof. exact lst_prealloc_refuted. Qed.
+Print Assumptions C15_list_prealloc_refuted.
+
+Theorem C15_list_no_guard_refuted :
+  exists bs, zlen bs = 16 /\
+    l_count (snd (snd (lst_dec (fun bs0 : list bool => Some (tt, bs0)) 4 false nobit_len false PerFragment (SCon 0 None false) bs))) = 16383.
+Proof. exact lst_no_guard_refuted. Qed.
+Print Assumptions C15_list_no_guard_refuted.
+
+(* the functions the check runs next to the C (ocaml/drv_c15.ml: c15_str, c15_lst) *)
+Theorem C15_front_end_string_heap_partial : forall (ub : nat) (bpc w : Z) (s : scon) (bs : list bool),
+  1 <= w -> w <= Z.of_nat ub -> 0 <= bpc -> w <= 8 * Z.max 1 bpc -> scon_ok s ->
+  w * m_peak (snd (c15_str PerFragment ub bpc s bs)) <= 2 * Z.max 1 bpc * zlen bs + w * (3 * 65536 * Z.max 1 bpc + 2).
+Proof. exact c15_str_heap_bound. Qed.
+Print Assumptions C15_front_end_string_heap_partial.
+
+Theorem C15_front_end_string_prealloc : forall (ub : nat) (bpc lo h : Z) (bs : list bool), 65536 <= h ->
+  mem_of bpc h + 1 <= m_peak (snd (c15_str PreallocUb ub bpc (SCon lo (Some h) false) bs)) /\
+  mem_of bpc h + 1 <= m_maxreq (snd (c15_str PreallocUb ub bpc (SCon lo (Some h) false) bs)).
+Proof. exact c15_str_prealloc_peak. Qed.
+Print Assumptions C15_front_end_string_prealloc.
+
+Theorem C15_front_end_list_heap_partial : forall (ub : nat) (esz : Z) (s : scon) (bs : list bool), 0 <= esz ->
+  let ml := snd (c15_lst PerFragment ub esz s bs) in
+  l_count (snd ml) <= zlen bs + 201 /\ m_peak (fst ml) <= (esz + 24) * (zlen bs + 201) + 32.
+Proof. exact c15_lst_heap_bound. Qed.
+Print Assumptions C15_front_end_list_heap_partial.
